@@ -295,9 +295,8 @@ func wrap1(inner []string, f func(string) bool) bool {
 	return true
 }
 
-// level3 calls f with the depth-3 types of the stated family; it also returns
-// (through keep) the non-product part for use at depth 4.
-func level3(f func(string) bool) bool {
+// level3 calls f with the depth-3 types of the stated family.
+func level3(thorough bool, f func(string) bool) bool {
 	l2 := level2()
 	upTo2 := append(append([]string{}, prims...), l2...)
 	if !wrap1(l2, f) {
@@ -319,7 +318,31 @@ func level3(f func(string) bool) bool {
 			}
 		}
 	}
-	// 2-tuples: every pair of types of depth <= 2 with at least one of depth 2
+	// 2-tuples with at least one element of depth 2. quick: every type of
+	// depth <= 2 paired (both orders) with each type of the reduced set;
+	// thorough: every pair of types of depth <= 2.
+	if !thorough {
+		inReduced := map[string]bool{}
+		for _, r := range reduced2 {
+			inReduced[r] = true
+		}
+		for ci, c := range upTo2 {
+			for di, d := range reduced2 {
+				if ci < len(prims) && di < len(prims) {
+					continue
+				}
+				if !f("T[" + c + ";" + d + "]") {
+					return false
+				}
+				if !inReduced[c] { // otherwise the swapped pair is met anyway
+					if !f("T[" + d + ";" + c + "]") {
+						return false
+					}
+				}
+			}
+		}
+		return true
+	}
 	for ci, c := range upTo2 {
 		for di, d := range upTo2 {
 			if ci < len(prims) && di < len(prims) {
@@ -373,7 +396,7 @@ func genTypes(from, to int, thorough bool, emit func(engine.Case) bool) bool {
 				}
 			}
 		case 3:
-			if !level3(f) {
+			if !level3(thorough, f) {
 				return false
 			}
 		case 4:
@@ -395,6 +418,9 @@ func judgeType(d Data) engine.Outcome {
 	}
 	want := t.cty()
 	s := typeexpr.TypeString(want)
+	if t.firstKeyFor() {
+		counters.Add("type_cases_with_object_first_key_for", 1)
+	}
 
 	// One defect, one class: TypeString sorts the attribute names and emits
 	// the first one directly after "{", so a first attribute named `for`
